@@ -341,8 +341,9 @@ structure FuncDef where
   name : String
   /-- name the exporter prints for it (`NameMap`, C15) -/
   emitted : String
-  /-- evaluated `[numthreads(x, y, z)]` attribute -/
-  numthreads : Option (Nat × Nat × Nat)
+  /-- evaluated `[numthreads(x, y, z)]` attributes of the function, in source order (the front end accepts
+      more than one) -/
+  attrs : List (Nat × Nat × Nat)
   deriving DecidableEq, Repr, Inhabited
 
 structure StageDef where
@@ -356,6 +357,13 @@ structure StageOut where
   threadGroupSize : Option (Nat × Nat × Nat)
   deriving DecidableEq, Repr, Inhabited
 
+/-- the loop `for attribute in attributes { if let NumThreads(x, y, z) = attribute { thread_group_size = Some(..) } }`
+    of `add_stage`: the last attribute wins -/
+def lastNumThreads : List (Nat × Nat × Nat) → Option (Nat × Nat × Nat)
+  | [] => none
+  | [t] => some t
+  | _ :: t :: r => lastNumThreads (t :: r)
+
 /-- `typer/pipelines.rs add_stage` + `build_pipeline`: the reported stage.  HLSL reports the name the
     exporter generated for the entry function (`ExportedSource::entry_point_names`), Metal the fixed name
     of the generated entry function for that stage. -/
@@ -364,12 +372,14 @@ def reportStage (msl : Bool) (funcs : List FuncDef) (s : StageDef) : Option Stag
   | none => none
   | some f =>
     some { stage := s.stage, entryPoint := if msl then mslEntryName s.stage else f.emitted,
-           threadGroupSize := f.numthreads }
+           threadGroupSize := lastNumThreads f.attrs }
 
-/-- what the emitted source defines for the stage: (function name, numthreads / total threads attribute) -/
-def emittedStage (msl : Bool) (funcs : List FuncDef) (s : StageDef) : Option (String × Option (Nat × Nat × Nat)) :=
+/-- what the emitted source defines for the stage: the function's name and the values of its thread group
+    size attributes — HLSL prints every `[numthreads(x, y, z)]` of the entry function, Metal one
+    `[[max_total_threads_per_threadgroup(x * y * z)]]` per attribute on the generated entry function -/
+def emittedStage (msl : Bool) (funcs : List FuncDef) (s : StageDef) : Option (String × List (Nat × Nat × Nat)) :=
   match funcs[s.entry]? with
   | none => none
-  | some f => some (if msl then mslEmittedEntryName s.stage else f.emitted, f.numthreads)
+  | some f => some (if msl then mslEmittedEntryName s.stage else f.emitted, f.attrs)
 
 end RsslVerif.Model.Meta
